@@ -1,6 +1,7 @@
 package main
 
 import (
+	"os"
 	"bytes"
 	"context"
 	"fmt"
@@ -65,17 +66,25 @@ func solveBatch(c *FnCtx, obls []*Obligation, timeoutMs int) {
 		fmt.Fprintf(&b, "(push)\n(assert %s)\n(assert (not %s))\n(check-sat)\n(pop)\n", o.Reach, o.Goal)
 	}
 	sp := solvers(timeoutMs)[1]
+	if d := os.Getenv("GOVC_DUMP_BATCH"); d != "" && len(todo) > 0 {
+		os.WriteFile(d+"/"+safeFile(todo[0].Func)+".smt2", []byte(assemble(b.String())), 0o644)
+	}
 	start := time.Now()
 	out, _ := runSolver(sp, assemble(b.String()), time.Duration(len(todo)*timeoutMs+5000)*time.Millisecond)
 	el := time.Since(start).Milliseconds()
-	lines := strings.Split(strings.TrimSpace(out), "\n")
-	ok := len(lines) >= len(todo)
+	var lines []string
 	bad := false
-	for _, l := range lines {
-		if strings.HasPrefix(l, "(error") {
+	for _, l := range strings.Split(strings.TrimSpace(out), "\n") {
+		l = strings.TrimSpace(l)
+		switch {
+		case l == "sat" || l == "unsat" || l == "unknown" || l == "timeout":
+			lines = append(lines, l)
+		case strings.HasPrefix(l, "(error"):
 			bad = true
+			lines = append(lines, l)
 		}
 	}
+	ok := len(lines) == len(todo)
 	if ok && !bad {
 		for i, o := range todo {
 			switch strings.TrimSpace(lines[i]) {
@@ -83,6 +92,12 @@ func solveBatch(c *FnCtx, obls []*Obligation, timeoutMs int) {
 				o.Status = "unsat"
 				o.Solver = sp.name + "/batch"
 				o.Ms = el / int64(len(todo))
+			case "sat", "unknown":
+				// vacuity probes only need "not provable"; no counterexample is wanted
+				if o.Kind == "canary" || o.Kind == "cover" {
+					o.Status = strings.TrimSpace(lines[i])
+					o.Solver = sp.name + "/batch"
+				}
 			}
 		}
 	} else if bad {
@@ -97,7 +112,7 @@ func solveBatch(c *FnCtx, obls []*Obligation, timeoutMs int) {
 	}
 	var wg sync.WaitGroup
 	for _, o := range todo {
-		if o.Status == "unsat" {
+		if o.Status != "" {
 			continue
 		}
 		wg.Add(1)
